@@ -1,6 +1,7 @@
 package props
 
 import (
+	"bufio"
 	"encoding/json"
 	"errors"
 	"fmt"
@@ -31,6 +32,20 @@ type caseC06 struct {
 	// beyond the data blocks instead of returning io.EOF.
 	Open    bool    `json:"open,omitempty"`
 	Prelude []preOp `json:"prelude,omitempty"`
+	// ZeroRun: after ZeroRunAt bytes of the stream the reader answers
+	// ZeroRunLen times (0, nil) before it goes on (a polling reader that comes
+	// back empty; only for readers without a bufio layer, which gives up
+	// after 100 empty reads by itself).
+	ZeroRunAt  int `json:"zero_run_at,omitempty"`
+	ZeroRunLen int `json:"zero_run_len,omitempty"`
+	// Touch: every packet a call returns is changed through a public adder
+	// before the next call (a bridge tagging what it forwards): the next
+	// result is still a matter of its own frame.
+	Touch bool `json:"touch,omitempty"`
+	// ReusedReader (bufio kinds): the same *bufio.Reader object was used
+	// before for another connection whose read timed out inside a packet
+	// body, and was then Reset to this stream (a pooled reader).
+	ReusedReader bool `json:"reused_reader,omitempty"`
 }
 
 // openStreamTimeout is how long a ReadPacket may take on a stream that holds
@@ -57,6 +72,16 @@ func checkC06(c caseC06) (sig, msg string) {
 			sr.Steps[i].N = 1
 		}
 	}
+	if c.ZeroRunLen > 0 && !c.Bytewise && c.ZeroRunAt < len(stream) {
+		sr.Steps = nil
+		if c.ZeroRunAt > 0 {
+			sr.Steps = append(sr.Steps, guard.Step{N: c.ZeroRunAt})
+		}
+		for i := 0; i < c.ZeroRunLen; i++ {
+			sr.Steps = append(sr.Steps, guard.Step{N: 0})
+		}
+		sr.Steps = append(sr.Steps, guard.Step{N: len(stream) - c.ZeroRunAt})
+	}
 	if c.EOFWithLast && len(stream) > 0 {
 		if len(sr.Steps) == 0 {
 			sr.Steps = []guard.Step{{N: len(stream)}}
@@ -68,6 +93,20 @@ func checkC06(c caseC06) (sig, msg string) {
 		defer close(sr.Release)
 	}
 	rd, consumed := wrappedStream(c.Reader, sr)
+	if c.ReusedReader && (c.Reader == "bufio16" || c.Reader == "bufio4096") && len(c.Frames) > 0 && len(c.Frames[0]) > 4 {
+		size := 16
+		if c.Reader == "bufio4096" {
+			size = 4096
+		}
+		doomed := c.Frames[0][:len(c.Frames[0])-1]
+		terr := &timeoutError{id: len(doomed)}
+		br := bufio.NewReaderSize(&guard.ScriptReader{Data: doomed, Injected: terr, After: terr}, size)
+		_ = readFrom(br, len(doomed), func() interface{} {
+			return vf.Failure{Property: "C06", Kind: "hang", Case: mustJSON(c), Signature: "hang"}
+		})
+		br.Reset(sr)
+		rd, consumed = br, func() int { return sr.Consumed() - br.Buffered() }
+	}
 	// each frame read on its own, before the stream is touched: what the
 	// bytes of that frame alone decode to
 	alones := make([]readResult, len(c.Frames))
@@ -142,6 +181,16 @@ func checkC06(c caseC06) (sig, msg string) {
 		if d := sameResult(alone, got); d != "" {
 			return "result-depends-on-neighbours", fmt.Sprintf("call %d on frame %s differs from reading that frame alone: %s", i, hx(f), d)
 		}
+		if c.Touch && got.OK && got.P != nil {
+			// change the returned packet through a public adder; the snapshot
+			// kept for the second look follows
+			snap := got.Obs.Clone()
+			guard.Call(func() {
+				if api.AppendOne(got.P, &snap, fmt.Sprintf("touched-%d", i), i) != "" {
+					gots[len(gots)-1].Obs = api.Observe(got.P)
+				}
+			})
+		}
 	}
 	if len(c.Trailing) == 0 && !c.Open {
 		got := readFrom(rd, 16, func() interface{} {
@@ -207,6 +256,19 @@ func TestC06(t *testing.T) {
 			c.Open, c.EOFWithLast, c.Trailing = true, false, nil
 		}
 		c.Prelude = drawPrelude(t)
+		c.Touch = rapid.IntRange(0, 2).Draw(t, "touch") == 0
+		c.ReusedReader = !c.Open && (c.Reader == "bufio16" || c.Reader == "bufio4096") && rapid.IntRange(0, 2).Draw(t, "reusedreader") == 0
+		if !c.Bytewise && !c.Open && (c.Reader == "script" || c.Reader == "chunklen") && rapid.IntRange(0, 5).Draw(t, "zerorun") == 0 {
+			total := 0
+			for _, f := range c.Frames {
+				total += len(f)
+			}
+			if total > 1 {
+				c.ZeroRunAt = rapid.IntRange(0, total-1).Draw(t, "zerorunat")
+				c.ZeroRunLen = rapid.SampledFrom([]int{3, 50, 99, 100, 101, 150, 1000}).Draw(t, "zerorunlen")
+				c.EOFWithLast = false
+			}
+		}
 		for _, k := range kinds {
 			if k == "valid-large" {
 				c.Bytewise = false // millions of one-byte reads add time, not coverage
@@ -239,12 +301,18 @@ func TestC06(t *testing.T) {
 		if c.EOFWithLast {
 			class += "/eof-with-last-bytes"
 		}
+		if c.ZeroRunLen > 0 {
+			class += "/long-zero-run"
+		}
+		if c.ReusedReader {
+			class += "/reader-reused-after-timeout"
+		}
 		var stream []byte
 		for _, f := range c.Frames {
 			stream = append(stream, f...)
 		}
-		r.Case(vf.FPs(string(stream), string(c.Trailing), fmt.Sprint(c.Bytewise, c.EOFWithLast, c.Open, len(c.Prelude)), c.Reader), nt, class, func() interface{} {
-			s := caseC06{Trailing: c.Trailing, Bytewise: c.Bytewise, Reader: c.Reader, EOFWithLast: c.EOFWithLast, Open: c.Open}
+		r.Case(vf.FPs(string(stream), string(c.Trailing), fmt.Sprint(c.Bytewise, c.EOFWithLast, c.Open, len(c.Prelude), c.ZeroRunAt, c.ZeroRunLen, c.Touch, c.ReusedReader), c.Reader), nt, class, func() interface{} {
+			s := caseC06{Trailing: c.Trailing, Bytewise: c.Bytewise, Reader: c.Reader, EOFWithLast: c.EOFWithLast, Open: c.Open, ZeroRunAt: c.ZeroRunAt, ZeroRunLen: c.ZeroRunLen, Touch: c.Touch, ReusedReader: c.ReusedReader}
 			for _, f := range c.Frames {
 				if len(f) > 48 {
 					f = f[:48]
